@@ -14,7 +14,7 @@
   `CoreVM.runToCompletion`; the steps that are not refined (new-action / `Start` / conflict resolution sites, head movement in
   general) are not in the relation.
 -/
-import NemoVerif.Lemmas.LifetimeCoreVM8e
+import NemoVerif.Lemmas.LifetimeCoreVM8f
 namespace NemoVerif.Lifetime.Refine
 open NemoVerif NemoVerif.CoreVM NemoVerif.CoreIndex NemoVerif.Lifetime
 
@@ -34,6 +34,13 @@ inductive RefinedOpStep : VM → VM → Prop
       cfgOfInst f vm = .ok cfg vm → getHead? (f, h) vm = .ok (some hd) vm →
       ¬ (hd.pos ≥ cfg.elements.size ∨ hd.status = .inactive) → cfg.elements[hd.pos]! = .label "start_new_flow_instance" →
       NameRO f (hd.pos + 1) →
+      slideStep fuel f h vm = .ok r vm' → RefinedOpStep vm vm'
+  | newAction (fuel : Nat) (f : FUid) (h : HUid) (cfg : FlowCfg) (hd : Head) (spec : Spec) (r : Bool × List Key) (vm vm' : VM) :
+      cfgOfInst f vm = .ok cfg vm → getHead? (f, h) vm = .ok (some hd) vm →
+      ¬ (hd.pos ≥ cfg.elements.size ∨ hd.status = .inactive) → cfg.elements[hd.pos]! = .newAction spec →
+      EvalFrame f spec.args →
+      (∀ args vmA, evalArgs f spec.args vm = .ok args vmA → OMap.lookup s!"u{vmA.r.nextUid + 1}z" vm.r.actions = none) →
+      (∀ nm, spec.name = some nm → GoodStop nm) → NameRO f (hd.pos + 1) →
       slideStep fuel f h vm = .ok r vm' → RefinedOpStep vm vm'
   | labelOther (fuel : Nat) (f : FUid) (h : HUid) (cfg : FlowCfg) (hd : Head) (name : String) (r : Bool × List Key) (vm vm' : VM) :
       cfgOfInst f vm = .ok cfg vm → getHead? (f, h) vm = .ok (some hd) vm →
@@ -80,7 +87,7 @@ inductive RefinedOpStep : VM → VM → Prop
 
 /-- the operations of the Lifetime machine that refined CoreVM steps map to -/
 def Covered : IOp → Prop
-  | .abort .. | .finish .. | .endScope .. | .label .. | .reactivate .. | .frame .. | .status .. | .event .. => True
+  | .abort .. | .finish .. | .endScope .. | .label .. | .reactivate .. | .frame .. | .status .. | .event .. | .newAction .. => True
   | _ => False
 
 theorem okOr_ok (s t : State) (r : Except Err State) (h : r = .ok t) : okOr s r = t := by rw [h]; rfl
@@ -108,6 +115,25 @@ theorem refinedOpStep_is_op (hν : Function.Injective ν) (hφ : Function.Inject
       obtain ⟨t, ht, ha, w'⟩ := corevm_label_is_op ν φ hν f h hd.pos vm vm1 hw hro hv
       cases hr
       exact ⟨w', [.label (ν f)], (by intro op hop; simp only [List.mem_singleton] at hop; subst hop; trivial), by simp only [List.foldl, applyOp, okOr_ok _ t _ ht]; exact ha⟩
+  | newAction fuel f h cfg hd spec r _ _ hcfg hhd hpos hel hev hfresh hgood hro hr =>
+    rw [slideStep_newAction fuel f h vm cfg hd spec hcfg hhd hpos hel] at hr
+    simp only [bind, EStateM.bind] at hr
+    cases hv : vmNewAction f h spec hd.pos vm with
+    | error e s => rw [hv] at hr; cases hr
+    | ok u vm1 =>
+      rw [hv] at hr
+      have hxf : ∃ x, OMap.lookup f vm.r.fx = some x := by
+        unfold cfgOfInst at hcfg
+        simp only [bind, EStateM.bind] at hcfg
+        cases hx : OMap.lookup f vm.r.fx with
+        | none => rw [getInstX_run_none f vm hx] at hcfg; cases hcfg
+        | some x => exact ⟨x, rfl⟩
+      obtain ⟨w', a, heads, scopes, ha⟩ := corevm_newAction_is_ops ν φ hν f h spec hd.pos vm vm1 hw hev hfresh hgood hxf hro hv
+      cases hr
+      refine ⟨w', [.newAction (ν f) (ν a), .frame (ν f) heads scopes], ?_, ha⟩
+      intro op hop
+      simp only [List.mem_cons, List.mem_singleton, List.not_mem_nil, or_false] at hop
+      rcases hop with e | e <;> subst e <;> trivial
   | labelOther fuel f h cfg hd name r _ _ hcfg hhd hpos hel hname hro hr =>
     rw [slideStep_label fuel f h vm cfg hd _ hcfg hhd hpos hel] at hr
     simp only [bind, EStateM.bind] at hr
@@ -264,6 +290,16 @@ theorem flowInv_step_covered (s : State) (op : IOp) (hi : FlowInv s) (hc : Cover
     · next f hf =>
       split
       · next hok => exact status_flowInv hi u f st hf hok
+      · exact hi
+    · exact hi
+  | newAction u a =>
+    simp only [applyOp]
+    split
+    · next f hf ha =>
+      split
+      · have h1 : FlowInv (setFlow s u { f with actionUids := f.actionUids ++ [a] }) :=
+          hi.of_core rfl (core_setFlow s u f _ hf rfl)
+        exact h1.of_flows_eq rfl rfl
       · exact hi
     · exact hi
   | event e =>
